@@ -83,7 +83,7 @@ theorem tabOf_tag {h : Heap} {t : Nat} {s tb : Addr} (hi : Inv h) (hs : h.tagOf 
         cases sc with
         | none => simp at e
         | some p => obtain ⟨t1, p1⟩ := p; simp at e; subst e; simp [structRefs, envRefs]
-      | unit _ _ _ t1 _ _ => simp at e; subst e; simp [structRefs, envRefs]
+      | unit _ _ _ _ t1 _ _ => simp at e; subst e; simp [structRefs, envRefs]
     by_cases h0 : tg = 0
     · exact Or.inr (hg.2 h0 tb key.2)
     · have := (hg.1 h0).1 tb key.1
@@ -209,7 +209,7 @@ theorem parOf_tag {h : Heap} {t : Nat} {s p : Addr} (hi : Inv h) (hs : h.tagOf s
         cases sc with
         | none => simp at e
         | some q => obtain ⟨t1, p1⟩ := q; simp at e; subst e; simp [parRefs, envRefs]
-      | unit _ _ p1 t1 _ _ => simp at e; subst e; simp [parRefs, envRefs]
+      | unit _ _ _ p1 t1 _ _ => simp at e; subst e; simp [parRefs, envRefs]
     by_cases h0 : tg = 0
     · exact Or.inr (hg.2 h0 p key.2)
     · have := (hg.1 h0).2.1 p key.1
@@ -277,7 +277,7 @@ theorem copyUnit_ok (m : Mode) (hm : m.tag ≠ 0) : ∀ (f : Nat) (h : Heap) (pa
     intro h parent' u hi hp'
     simp only [copyUnit]
     split
-    · rename_i isMod name p0 t0 secs mems _
+    · rename_i isMod name attrs p0 t0 secs mems _
       -- table
       have g1 : Good (h.alloc m.tag (.tab (parent'.bind (tabOf h)) (copyEnts m (entsOf h t0)))).1 m.tag
           (.tab (parent'.bind (tabOf h)) (copyEnts m (entsOf h t0))) := by
@@ -292,15 +292,15 @@ theorem copyUnit_ok (m : Mode) (hm : m.tag ≠ 0) : ∀ (f : Nat) (h : Heap) (pa
       have hp1 : ∀ p, parent' = some p → r1.1.tagOf p = some m.tag ∨ r1.1.tagOf p = some 0 := fun p e =>
         (hp' p e).imp (l1.1 _ _) (l1.1 _ _)
       -- placeholder
-      have l2 := le_alloc r1.1 m.tag (.unit isMod name parent' r1.2 [] [])
-      have n2 := tagOf_alloc_new r1.1 m.tag (.unit isMod name parent' r1.2 [] [])
-      have g2 : Good (r1.1.alloc m.tag (.unit isMod name parent' r1.2 [] [])).1 m.tag (.unit isMod name parent' r1.2 [] []) := by
+      have l2 := le_alloc r1.1 m.tag (.unit isMod name attrs parent' r1.2 [] [])
+      have n2 := tagOf_alloc_new r1.1 m.tag (.unit isMod name attrs parent' r1.2 [] [])
+      have g2 : Good (r1.1.alloc m.tag (.unit isMod name attrs parent' r1.2 [] [])).1 m.tag (.unit isMod name attrs parent' r1.2 [] []) := by
         refine ⟨fun x hx => ?_, fun x hx => ?_, by simp [symRefs]⟩
         · simp only [structRefs, List.append_nil, List.mem_singleton] at hx; subst hx; exact l2.1 _ _ n1
         · simp only [parRefs, Option.mem_toList] at hx
           exact (hp1 x hx).imp (l2.1 _ _) (l2.1 _ _)
       have i2 := inv_alloc i1 hm g2
-      generalize r1.1.alloc m.tag (.unit isMod name parent' r1.2 [] []) = r2 at g2 i2 l2 n2
+      generalize r1.1.alloc m.tag (.unit isMod name attrs parent' r1.2 [] []) = r2 at g2 i2 l2 n2
       have hp2 : ∀ p, parent' = some p → r2.1.tagOf p = some m.tag ∨ r2.1.tagOf p = some 0 := fun p e =>
         (hp1 p e).imp (l2.1 _ _) (l2.1 _ _)
       have c2 : ChainOK r2.1 m.tag (r2.2 :: chainOf (f + 1) r2.1 parent') := by
@@ -331,8 +331,8 @@ theorem copyUnit_ok (m : Mode) (hm : m.tag ≠ 0) : ∀ (f : Nat) (h : Heap) (pa
       obtain ⟨l4, i4, ⟨tu4, tt4, c4, hp4, tm4⟩, t4⟩ := th4
       generalize thread (fun h k => copyNode m (f + 1) h chain k) r3.1 secs = r4 at l4 i4 tu4 tt4 c4 hp4 tm4 t4
       -- final unit cell
-      have ls := le_set r4.1 r2.2 (.unit isMod name parent' r1.2 r4.2 r3.2)
-      have i5 : Inv (r4.1.set r2.2 (.unit isMod name parent' r1.2 r4.2 r3.2)) := by
+      have ls := le_set r4.1 r2.2 (.unit isMod name attrs parent' r1.2 r4.2 r3.2)
+      have i5 : Inv (r4.1.set r2.2 (.unit isMod name attrs parent' r1.2 r4.2 r3.2)) := by
         refine inv_set i4 ?_
         intro t ht
         rw [tu4] at ht; cases ht
